@@ -847,6 +847,21 @@ def crc_facts(facts, root, positive=True):
                     e = _crc_extent(p, root)
                     if e is not None and (f.a[0] == "==") == positive:
                         out.append(e)
+                    continue
+                # crc16(root[lo:mid]) == (big-endian word at root[mid:mid+2]): for a CRC without final XOR this is the
+                # same condition as crc16(root[lo:mid+2]) == 0 (the register after the two trailer octets is a bijective
+                # linear image of crc XOR trailer)
+                e = _crc_extent(p, root)
+                if e is None or e[1] is None:
+                    continue
+                lq = linearize(q)
+                if lq.c == 0 and len(lq.co) == 1:
+                    (at_, cf_), = lq.co.items()
+                    if cf_ == 1 and at_.k == "unpacked" and at_.a[0].lstrip("!>") == "H" and at_.a[1].k == "slice" and at_.a[1].a[0].k == "sym" \
+                            and at_.a[1].a[0].a[0] == root and not is_const(at_.a[1].a[2], None):
+                        wlo, whi = linearize(at_.a[1].a[1]), linearize(at_.a[1].a[2])
+                        if wlo.key() == e[1].key() and (whi - wlo).key() == Lin({}, 2).key() and (f.a[0] == "==") == positive:
+                            out.append((e[0], whi))
         elif f.k == "un" and f.a[0] in ("bool", "not") and f.a[1].k == "crc16v":
             e = _crc_extent(f.a[1], root)
             # bool(crc) true = non-zero ; not(crc) = zero
